@@ -10,8 +10,10 @@ import mouette
 assert os.path.realpath(mouette.__file__).startswith(os.path.realpath(os.environ.get("VERIF_REPO", "/repo"))), mouette.__file__
 from sim.engine import run_seed
 n = 0
+import json
+claimed = [c["property_id"].lower() for c in json.load(open(os.path.join(HERE, "MANIFEST.json")))["checks"]]
 for f in sorted(os.listdir(os.path.join(HERE, "props"))):
-    if f.startswith("c") and f.endswith(".py"):
+    if f.startswith("c") and f.endswith(".py") and f[:-3] in claimed:
         sim = importlib.import_module("props." + f[:-3]).SIM
         for s in (11, 12, 13):
             a, b = run_seed(sim, s, "quick"), run_seed(sim, s, "quick")
